@@ -18,7 +18,14 @@ def cbool(b):
 
 def cz(n):
     if isinstance(n, bool) or not isinstance(n, int): raise TypeError(n)
-    return '(%d)' % n if n < 0 else str(n)
+    if -10**15 < n < 10**15:
+        return '(%d)' % n if n < 0 else str(n)
+    if n < 0:
+        return '(- %s)' % cz(-n)
+    if n.bit_length() <= 8192:
+        return '0x%x' % n
+    # very long literals overflow coqc's number parser: build from 8192-bit limbs
+    return '(Z.shiftl %s 8192 + %s)' % (cz(n >> 8192), cz(n & ((1 << 8192) - 1)))
 
 def cnat(n):
     if isinstance(n, bool) or not isinstance(n, int) or n < 0 or n > 5000: raise TypeError(n)
